@@ -79,12 +79,12 @@ HrpCodes(h) == (CHOOSE n \in Range(NetTable) : n.hrp = h).hrpcodes
 NetsWithHrp(h)  == {n.name : n \in {m \in Range(NetTable) : m.hrp = h}}
 \* Implementation layer of the prefix registry.  chaincfg.Register stores the
 \* prefix text as given and IsBech32SegwitPrefix lower-cases only the query;
-\* DecodeAddress wants the last '1' at an index above 1; IsForNet compares the
-\* (lower-cased) prefix of the address with the text of the parameter set.  So
-\* the code decodes the segwit strings of a prefix only if it is registered in
-\* lower case and has two characters or more.
+\* IsForNet compares the (lower-cased) prefix of the address with the text of
+\* the parameter set.  So the code decodes the segwit strings of a prefix only
+\* if it is registered in lower case.  (Until btcd a662c0dd DecodeAddress also
+\* wanted the last '1' at an index above 1, i.e. two characters or more.)
 ImplRegHrps       == {n.reghrp : n \in RegNets}
-ImplDecodable(h)  == h \in ImplRegHrps /\ Len(HrpCodes(h)) >= 2
+ImplDecodable(h)  == h \in ImplRegHrps
 ImplNetsWithHrp(h) == {n.name : n \in {m \in Range(NetTable) : m.reghrp = h}}
 NetsWithPkh(v)  == {n.name : n \in {m \in Range(NetTable) : m.pkh = v}}
 NetsWithSh(v)   == {n.name : n \in {m \in Range(NetTable) : m.sh = v}}
@@ -283,7 +283,7 @@ DecidePkHex(s, dn) ==
 \* which form a string has: sep = index of the last '1' (0-based, -1: none),
 \* prefixreg: the text before it is (in any case) the prefix of a registered
 \* network.  BIP173 allows one-character prefixes, so sep >= 1.  (The code's own
-\* dispatch asks for sep > 1 and looks the text up as ImplDecodable says.)
+\* dispatch looks the text up as ImplDecodable says.)
 FormOf(sep, prefixreg, nchars) ==
     IF sep >= 1 /\ prefixreg THEN "bech" ELSE IF nchars \in {66, 130} THEN "pkhex" ELSE "b58"
 
